@@ -87,7 +87,7 @@ let c18_op t : fop =
   match next t with
   | "U" -> let d = next_nat t in let i = next_nat t in FUnit (d, i)
   | "C" -> let d = next_nat t in let a = next_nat t in FCopy (d, a)
-  | "A" -> let d = next_nat t in let a = next_nat t in FAssign (d, a)
+  | "A" | "M" -> let d = next_nat t in let a = next_nat t in FAssign (d, a)     (* M = move-assignment from a temporary copy: same meaning *)
   | "P" -> let d = next_nat t in let a = next_nat t in let b = next_nat t in FAdd (d, a, b)
   | "Q" -> let d = next_nat t in let a = next_nat t in FAddAssign (d, a)
   | "S" -> let d = next_nat t in let a = next_nat t in let c = next_z t in FScale (d, a, c)
